@@ -46,8 +46,26 @@ CLAIM = {
             "- with a progress record written before every evaluation, so that a fatal runtime error (stack overflow, concurrent map access: "
             "no recoverable panic) is attributed to its evaluation, confirmed by a re-run alone and reported with the runtime's verdict in the "
             "signature; a sample runs through `rare filter` / `rare histogram` with -i and two -e of one invocation; all recorded process "
-            "scans are validated by TLC against ExprScanPool_Trace.",
-    "note": "Exploration, not proof: the space is finite pools and bounded templates (<= 5 arguments, nesting depth <= 3, byte strings <= 3 "
+            "scans are validated by TLC against ExprScanPool_Trace. ExprText.tla / ExprSizes.tla / ExprSizesLaws.tla model the SIZES a helper is "
+            "handed: a text as a sequence of character classes (ASCII, 2/3/4-byte letters, a letter whose upper case is longer, combining mark, "
+            "invalid byte, truncated sequence, encoded surrogate, NUL) with its encoding and its length in bytes, runes, UTF-16 units, columns and "
+            "array elements (the decoder of the Go runtime transcribed; TLC checks the table against it for every sequence), the window "
+            "normalisation of substr transcribed (Norm), and a call's argument count against a staging buffer. ExprSizes is one evaluation: Clamp "
+            "(in ClampUnit) / Cut (in CutUnit) and Alloc / Fill (buffer as long as the call, or fixed with/without fallback); TLC proves Survives, "
+            "NormOK, Returns for the code's choices and for admissible refactorings (whole-value shortcut, fixed buffer with fallback) over all "
+            "texts of <= L characters x all offsets around zero / the lengths / huge x all probed argument counts, and must refute 'clamp in "
+            "bytes, cut a rune copy' (also behind a whole-value shortcut: the counterexample is then 'the last k' / 'all but the first') and 'a "
+            "4- / 64-element buffer without fallback'. ExprSizesLaws proves that the pools replayed on the real code contain, for EVERY pair of "
+            "units, a text on which they differ by more than any allocation slack (a crash needs the cut to pass the capacity, not only the "
+            "length), with windows of every shape (suffix, inner, prefix beyond the shorter measure) among the offsets tried with it, texts of "
+            "32/64 runes in 33/65 bytes, and for every helper without an argument limit every count up to 10, both sides of 16..128 and a count "
+            "beyond every capacity up to 250. Those pools feed the generator: the texts are values of every string / array position of every "
+            "helper (as match data and - through a placeholder the driver expands - as constants in the template, also next to malformed "
+            "syntax), lines through the real extractor, group 'win' (substr in four spellings, select, @slice, @select, printf widths x texts x "
+            "offsets around the text's length in every unit) and group 'ary' (every helper x the wide argument counts, all constant / all from "
+            "the line / mixed); the driver compares the model's byte / rune / element counts of every pooled text with the real strings.",
+    "note": "Exploration, not proof: the space is finite pools and bounded templates (value cross products for <= 5 arguments, plain calls up to "
+            "257 (thorough 4097) arguments, nesting depth <= 3, byte strings <= 3 "
             "(quick) / 5 (thorough), formula token strings <= 3 / 4). Excluded as documented resource use: results of 10^7..10^18 elements "
             "(@range, @for, repeat, bar length), unbounded @for conditions with growing or long values. Outcome classes are only predicted for "
             "spellings without inner quotes/braces/backslashes. A deadline miss that is not reproduced alone is not reported. Concurrency of "
@@ -95,6 +113,12 @@ def _pool_cfg(which, g, n, p, maxobj, double=(), leak=(), noreset=(), invs=None,
             % (which, g, n, p, maxobj, q(double), q(leak), q(noreset), " ".join(invs), "PROPERTIES Terminates\n" if props else ""))
 
 
+def _sizes_cfg(l, thorough, clamp="byte", cut="byte", shortcut=False, buf=0, fallback=False, invs=("TypeOK", "Survives", "NormOK", "Returns")):
+    return ("INIT Init\nNEXT Next\nCONSTANTS L = %d\n ClampUnit = \"%s\"\n CutUnit = \"%s\"\n Shortcut = %s\n Buf = %d\n Fallback = %s\n Thorough = %s\n"
+            "INVARIANTS %s\nCHECK_DEADLOCK FALSE\n" % (l, clamp, cut, "TRUE" if shortcut else "FALSE", buf, "TRUE" if fallback else "FALSE",
+                                                       "TRUE" if thorough else "FALSE", " ".join(invs)))
+
+
 def _helper(f):
     """helper name of a finding (mutation tags carry the argument count)."""
     return re.sub(r"\d+$", "", f) if f else "-"
@@ -122,6 +146,9 @@ def _check(run):
         "evaluations from several goroutines at once (process scenarios in mode par / extract) are checked for crashes only; their values are C10/C17's",
         "process scenarios run with a goroutine stack limit of 64 MiB (Go's default is 1 GiB): their templates nest at most 7 helpers, so an "
         "evaluation that needs more stack is a runaway recursion; the runtime's verdict (fatal error: stack overflow) is the same, only sooner",
+        "a cut beyond a value's length (or a store beyond a buffer's) is observable on the real code only as a crash, i.e. beyond the "
+        "allocation's capacity; assumed of the Go runtime: a buffer of n units has a capacity of at most max(32, n + n/4) units (ExprText "
+        "SlackBound); a helper that merely reads slack returns a string and is not this property's subject (values are C11's)",
         "once 6 deaths of process scenarios of one class (runtime verdict + innermost frames) are confirmed by a re-run alone, further deaths of "
         "that class are counted but not re-run",
     ]
@@ -232,6 +259,47 @@ def _check(run):
         parallel([(lambda c=c: control(c)) for c in controls] + [leak_ok], 3)
         run.cov["pool_model"] = ("%d configurations, %d states without deviations; %d deviations (double Return on an exit path, missing "
                                  "re-initialisation, leak) each refuted" % (len(good), total, len(controls)))
+
+    # ---------------------------------------------------------------- B3: sizes - the length of a text in every unit, the number of arguments
+    def sizes_mc():
+        th = not quick
+        rl = run.tlc("ExprSizesLaws", "INIT Init\nNEXT Next\nCONSTANTS Thorough = %s\nINVARIANTS TableOK TextAdequate WindowAdequate BoundaryTexts "
+                     "ArityAdequate\nCHECK_DEADLOCK FALSE\n" % ("TRUE" if th else "FALSE"), workers=1, timeout=900,
+                     label="ExprSizesLaws (measure table vs encoding and decoder; pools adequate for every pair of units and every capacity)")
+        require_clean(run, rl, "ExprSizesLaws")
+        l = 2 if quick else 3
+        good = [("code: clamp and cut in bytes, buffer as long as the call", dict()),
+                ("refactoring: whole-value shortcut, 4-element buffer with fallback", dict(shortcut=True, buf=4, fallback=True))]
+        if th:
+            good.append(("clamp and cut in runes", dict(clamp="rune", cut="rune")))
+            good.append(("clamp in runes, cut in bytes (never longer than the value: no crash)", dict(clamp="rune", cut="byte")))
+        total = 0
+        for what, kw in good:
+            ll = l if kw == {} else l - 1
+            r = run.tlc("ExprSizes", _sizes_cfg(ll, th, **kw), workers=1 if quick else 3, timeout=2400, label="ExprSizes L=%d %s" % (ll, what), coverage=(kw == {}))
+            require_clean(run, r, "ExprSizes (%s)" % what)
+            total += r.distinct
+            if r.coverage:
+                dead = [a for a, (cnt, _) in r.coverage.items() if cnt == 0 and a.split(".")[1] in ("Clamp", "Cut", "Alloc", "Fill")]
+                if dead:
+                    raise Inconclusive("ExprSizes: actions never taken: %s" % dead)
+        controls = [("clamp in bytes, cut in runes", dict(clamp="byte", cut="rune")),
+                    ("clamp in bytes, cut in runes, whole-value shortcut (the window of the counterexample is not the whole value)",
+                     dict(clamp="byte", cut="rune", shortcut=True)),
+                    ("4-element staging buffer without fallback", dict(buf=4)),
+                    ("64-element staging buffer without fallback", dict(buf=64))]
+        if th:
+            controls += [("clamp in UTF-16 units, cut in runes", dict(clamp="u16", cut="rune")),
+                         ("clamp in bytes, cut in columns", dict(clamp="byte", cut="col"))]
+
+        def control(c):
+            what, kw = c
+            rn = run.tlc("ExprSizes", _sizes_cfg(1 if quick else 2, th, invs=("Survives",), **kw), workers=1, timeout=900, label="ExprSizes negative control: %s" % what)
+            if "Survives" not in rn.violated:
+                raise Inconclusive("ExprSizes with %s: expected Survives to be violated, got %s" % (what, rn.violated))
+        parallel([(lambda c=c: control(c)) for c in controls], 2)
+        run.cov["sizes_model"] = ("L=%d: %d states without deviations (code; shortcut + fixed buffer with fallback); %d deviations (unit confusion, "
+                                  "fixed buffer without fallback) each refuted; pool laws hold" % (l, total, len(controls)))
 
     # ---------------------------------------------------------------- process scenarios: several expressions, histories, goroutines, extractor
     def part_proc():
@@ -349,7 +417,15 @@ def _check(run):
         other("B", "full, cc, mut, raw, ff", 2)
         other("C", "math", 2)
 
-    rare, _, _, _, _ = parallel([lane1, part_a, lane_bc, part_sim, part_proc], 5)
+    def lane_d():
+        sizes_mc()
+        res = other("D", "ary, win", 1 if quick else 2)
+        pg = res.get("per_group") or {}
+        if pg.get("ary", 0) < 1000 or pg.get("win", 0) < 400 or not res.get("texts_measured"):
+            raise Inconclusive("part D replayed %s scenarios, %s texts measured" % (pg, res.get("texts_measured")))
+        run.cov["texts_measured_against_runtime"] = res.get("texts_measured")
+
+    rare, _, _, _, _, _ = parallel([lane1, part_a, lane_bc, part_sim, part_proc, lane_d], 6)
 
     # ---------------------------------------------------------------- CLI sample (needs part A's vectors and the binary)
     cli_path = os.path.join(sc, "c08-cli.json")
@@ -490,7 +566,7 @@ def _check(run):
     run.cov["evaluations"] += tot["compiles"] + tot["evals"] + cli_res["runs"]
     run.cov["traces_validated_against_impl"] += run.cov["b2_scans_validated"]
     run.cov["distinct_nontrivial"] += len(state["hashes"])
-    run.cov["rule"] = ("cases are generated by TLC from ExprTotal.tla (exhaustive groups oat/oatc/oatm/full/cc/for/mut/raw/math/ff/hist/scan and "
+    run.cov["rule"] = ("cases are generated by TLC from ExprTotal.tla (exhaustive groups oat/oatc/oatm/full/cc/for/mut/raw/math/ff/hist/scan/ary/win and "
                        "random draws in simulation mode); an evaluation is one Compile or one BuildKey / one line through the extractor; a case is "
                        "(template text, matcher, line values) evaluated with the optimising compiler; it is non-trivial when the template "
                        "contains a statement ('{'); distinct cases are counted by a 64-bit FNV hash of the template text and the line's value ids")
